@@ -17,11 +17,11 @@ LEVEL = "model_checking"
 TECHNIQUE = "explicit-state BFS over (overload table, dispatch, cache, memo) reached by replaying operation histories on the real Dataset; exhaustive interface/implementation enumeration"
 RULE = (
     "dataset variants {concrete, abstract} x dispatch {key string, Option with default, dataset} with a callback; "
-    "operations: register a/b with constant / Option / dataset implementations, re-register, overload(['a','b']), "
+    "operations: register a/b with constant / Option / dataset implementations, re-register, overload(['a','b']), overload(<one alias: a tuple under a dataset dispatch>), "
     "stacked overload, set_dispatch(Option('D','a')), evaluate over D in {absent,a,b,zz} x X in {1,2}; BFS with "
     "state dedup to depth 4 quick / 5 thorough; interfaces: all shapes with <=3 members over 6 member kinds x all "
     "override subsets (+ unknown member) x 4 override forms rotated x alias forms; two-interface implementations: all pairs of shapes with <=2 members x all "
-    "override subsets.  Non-trivial = evaluations after at least one registration / accepted or rejected implementations."
+    "override subsets; members declared with a dispatch of their own; Overloaded objects built from one dictionary.  Non-trivial = evaluations after at least one registration / accepted or rejected implementations."
 )
 ASSUMPTIONS = [
     "an evaluation may return the value stored by an earlier successful evaluation of the same dispatch value and (if the stored implementation reads it) the same payload: the property exempts 'already stored'",
